@@ -160,6 +160,40 @@ func twinNamedN1(w *World, r *Reg) any {
 	return func(p params) (*N1, error) { return staticInvoke[*N1](w, r, nilableN0(p.Dep)) }
 }
 
+// the same two once more with the tags swapped over the field types: every pair of the four
+// shapes has one printed name, two of the pairs also one layout and differ in the tag alone
+func twinNamedD0D1(w *World, r *Reg) any {
+	type params struct {
+		godi.In
+		Dep *D0 `name:"a"`
+	}
+	return func(p params) (*D1, error) { return staticInvoke[*D1](w, r, nilableD0(p.Dep)) }
+}
+
+func twinPlainN0D1(w *World, r *Reg) any {
+	type params struct {
+		godi.In
+		Dep *N0
+	}
+	return func(p params) (*D1, error) { return staticInvoke[*D1](w, r, nilableN0(p.Dep)) }
+}
+
+func twinNamedD0N1(w *World, r *Reg) any {
+	type params struct {
+		godi.In
+		Dep *D0 `name:"a"`
+	}
+	return func(p params) (*N1, error) { return staticInvoke[*N1](w, r, nilableD0(p.Dep)) }
+}
+
+func twinPlainN0N1(w *World, r *Reg) any {
+	type params struct {
+		godi.In
+		Dep *N0
+	}
+	return func(p params) (*N1, error) { return staticInvoke[*N1](w, r, nilableN0(p.Dep)) }
+}
+
 func twinShapeOK(r *Reg) bool {
 	if r.Form != FormPlain || len(r.Outs) != 1 || len(r.As) > 0 || r.Outs[0].T != r.Outs[0].Impl || r.Outs[0].HasAlt || len(r.Deps) != 1 {
 		return false
@@ -168,20 +202,28 @@ func twinShapeOK(r *Reg) bool {
 	if (r.Outs[0].T != 1 && r.Outs[0].T != NumD+1) || d.Builtin != 0 || d.Ignored || d.Optional || d.Group != "" {
 		return false
 	}
-	return (d.T == 0 && d.Key == "") || (d.T == NumD && d.Key == "a")
+	return (d.T == 0 || d.T == NumD) && (d.Key == "" || d.Key == "a")
 }
 
 func twinCtor(w *World, r *Reg) any {
-	named := r.Deps[0].Key == "a"
+	named, depD0 := r.Deps[0].Key == "a", r.Deps[0].T == 0
 	switch {
-	case r.Outs[0].T == 1 && !named:
+	case r.Outs[0].T == 1 && !named && depD0:
 		return twinPlainD1(w, r)
-	case r.Outs[0].T == 1:
+	case r.Outs[0].T == 1 && named && !depD0:
 		return twinNamedD1(w, r)
-	case !named:
+	case r.Outs[0].T == 1 && named:
+		return twinNamedD0D1(w, r)
+	case r.Outs[0].T == 1:
+		return twinPlainN0D1(w, r)
+	case !named && depD0:
 		return twinPlainN1(w, r)
+	case named && !depD0:
+		return twinNamedN1(w, r)
+	case named:
+		return twinNamedD0N1(w, r)
 	}
-	return twinNamedN1(w, r)
+	return twinPlainN0N1(w, r)
 }
 
 // PlantTwins adds two consumers whose parameter-object types print alike but
@@ -199,7 +241,10 @@ func PlantTwins(t *rapid.T, cfg *Config) bool {
 			nid = r.ID + 1
 		}
 	}
-	wants := []Ident{{T: 0}, {T: NumD, Key: "a"}}
+	shapes := []Ident{{T: 0}, {T: NumD, Key: "a"}, {T: 0, Key: "a"}, {T: NumD}}
+	// (0,1) and (2,3) differ in field type and tag; (0,2) and (1,3) in the tag alone - same layout
+	pair := rapid.SampledFrom([][2]int{{0, 1}, {0, 2}, {1, 3}, {0, 2}, {1, 3}, {2, 3}}).Draw(t, "twinPair")
+	wants := []Ident{shapes[pair[0]], shapes[pair[1]]}
 	var add []Reg
 	for _, id := range wants {
 		if ow, ok := m.Owner(id); ok {
